@@ -84,7 +84,16 @@ Definition monitor (c : case) : list N :=
    | Some t0 =>
        if forallb expressible t0 && forallb (post (in_tab (c_letters c)) (in_tab (c_digits c)) 258) t0 then
          match c_res c with POk t => if nodes_eqb t0 t then [] else [3%N] | _ => [3%N] end
-       else []
+       else
+         (* outside the sufficient condition [expressible] (any argument ending in a backslash is
+            excluded there): the tree is still expressible in the syntax if the grammar - the
+            model reader - takes its print back to it *)
+         match model_read c (c_inp c) with
+         | POk tm => if nodes_eqb t0 tm then
+                       match c_res c with POk t => if nodes_eqb t0 t then [] else [3%N] | _ => [3%N] end
+                     else []
+         | _ => []
+         end
    | None => []
    end).
 Definition monitor_failures (cs : list case) : list (N * list N) :=
